@@ -41,6 +41,9 @@ enum Pert {
 	Fx(usize, u8),
 	/// two sounds on one node
 	TwoSounds(usize),
+	/// track 0 declares its route to send 0 twice (-6.02 dB, then -12 dB: the later declaration replaces the earlier);
+	/// after the first callback the route is closed with set_send
+	DupRoute,
 }
 
 fn fx_chain(v: u8) -> Vec<FxOp> {
@@ -68,6 +71,9 @@ fn perts(n: usize, nsends: usize) -> Vec<Pert> {
 	for t in 0..n {
 		v.push(Pert::Tween(t));
 		v.push(Pert::TwoSounds(t));
+	}
+	if nsends > 0 && n > 0 {
+		v.push(Pert::DupRoute);
 	}
 	v
 }
@@ -119,7 +125,7 @@ impl Check for C02 {
 		}
 	}
 	fn rule(&self) -> String {
-		"all 9 forests of <= 3 sub-tracks x internal buffer {1,2,3,4} x {0,1,2} send tracks (routes from track 0, and from the last track for 2 sends) x every subset of {main, tracks} carrying a probe sound x one perturbation at a time (volume -6.0206 / -60 dB on each track, main, send, route; all -6 dB; 2-chunk volume tween; three order-sensitive effect chains on each track, main, send; two sounds on one track) x 4 callback patterns from {1,3,4,7} frames; plus all histories to depth 3 (4 thorough) over 3 + 6 per track + 1 letters (add sound, drop handle, finish sound, pause, resume, tweened set_volume per track; tweened set_send; drop send handle) on fully populated forests; plus E2: all interleavings (preemption bound 2 / 3) of game(add send track; add track routed to it; play) with audio(3 callbacks). Every callback is compared with the reference sum; states = distinct (adopted, marked, removed, pause state) vectors of the model; non-trivial = scenes with at least two contributing sounds and non-silent output".into()
+		"all 9 forests of <= 3 sub-tracks x internal buffer {1,2,3,4} x {0,1,2} send tracks (routes from track 0, and from the last track for 2 sends) x every subset of {main, tracks} carrying a probe sound x one perturbation at a time (volume -6.0206 / -60 dB on each track, main, send, route; all -6 dB; 2-chunk volume tween; a route declared twice then closed; three order-sensitive effect chains on each track, main, send; two sounds on one track) x 4 callback patterns from {1,3,4,7} frames; plus all histories to depth 3 (4 thorough) over 3 + 6 per track + 1 letters (add sound, drop handle, finish sound, pause, resume, tweened set_volume per track; tweened set_send; drop send handle) on fully populated forests; plus E2: all interleavings (preemption bound 2 / 3) of game(add send track; add track routed to it; play) with audio(3 callbacks). Every callback is compared with the reference sum; states = distinct (adopted, marked, removed, pause state) vectors of the model; non-trivial = scenes with at least two contributing sounds and non-silent output".into()
 	}
 	fn assumptions(&self) -> Vec<String> {
 		vec![
@@ -183,7 +189,12 @@ fn build(shape: usize, ibs: usize, nsends: usize, mask: u32, pert: Pert) -> Resu
 	for (i, p) in parents.iter().enumerate() {
 		let mut routes = vec![];
 		if nsends > 0 && i == 0 {
-			routes.push((0, vol(n + 2)));
+			if pert == Pert::DupRoute {
+				routes.push((0, -6.0206));
+				routes.push((0, -12.0));
+			} else {
+				routes.push((0, vol(n + 2)));
+			}
 		}
 		if nsends > 1 && i == n - 1 {
 			routes.push((1, 0.0));
@@ -239,6 +250,9 @@ fn grid(tier: Tier, shape: usize, ibs: usize, nsends: usize, ctx: &mut Ctx) {
 								// a tween of exactly two internal buffers
 								w.set_node_volume(t, -12.0, 2.0 * ibs as f64 / SR as f64);
 							}
+						}
+						if pert == Pert::DupRoute && ci == 1 {
+							w.set_node_route(0, 0, -60.0, 0.0);
 						}
 						let f = w.callback(frames);
 						let bad = !f.is_empty();
